@@ -1,7 +1,7 @@
 """History generators for the hash table and the hash set (protocol: harness/shim_hashtable.c,
 harness/shim_hashset.c).  All randomness comes from the `rng` argument.
 
-Op vocabulary (table):   new cap= lf= hash= [seed=] [klen=] | new_default | add k v | get k |
+Op vocabulary (table):   new cap= lf= hash= [seed=] [klen=] [keys=buf] | new_default | add k v | get k |
   contains_key k | remove k [noout=1] | remove_all | foreach_key | foreach_value |
   mk_keys to=s | mk_values to=s | arr_add v o=s | arr_destroy o=s | it_new | it_next |
   it_remove [noout=1] | destroy_table | destroy
@@ -33,11 +33,18 @@ def conf_line(rng, tier, growth=False, is_set=False):
     h = rng.choice(HARNESS_HASHES) if r < 0.7 else rng.choice(LIB_HASHES)
     cap = rng.choice([0, 1, 2, 3] if growth else CAPS)
     lf = rng.choice(LFS) if rng.random() < 0.85 else rng.choice(ODD_LFS)
+    # real buffer keys (a fresh copy of the bytes on every call, comparator = memcmp/strcmp): a quarter
+    # of the histories, fixed lengths 4, 8 (= sizeof(void*)), 16 and variable-length strings
+    buf = rng.random() < 0.25
+    if buf:
+        h = rng.choice(["lib_gen", "lib_gen", "lib_gen", "lib_str"])
     line = f"new cap={cap} lf={lf} hash={h}"
     klen = 4
     if h == "lib_gen":
-        klen = rng.choice([1, 4, 7, 16])
+        klen = rng.choice([8, 8, 4, 16]) if buf else rng.choice([1, 4, 7, 8, 16])
         line += f" klen={klen}"
+    if buf:
+        line += " keys=buf"
     if h.startswith("lib_") and rng.random() < 0.5:
         line += f" seed={rng.choice([1, 7, 12345, 4294967295])}"
     return line, h, klen
@@ -130,6 +137,14 @@ class HashTableGen:
                         "it_remove", "it_remove", "it_next"] + self._tail(3) + ["destroy"]
                 out.append(ops)
         out.append(["new_default", self._add(1, 2), self._add(0, 3), self._add(1, 4), "remove 1", "remove 1", "destroy"])
+        # real buffer keys: an equal key arrives from a different buffer on every call
+        for conf in ("hash=lib_gen klen=8", "hash=lib_gen klen=4", "hash=lib_gen klen=16", "hash=lib_str"):
+            for cap in (1, 16):
+                ops = [f"new cap={cap} lf=0.75 {conf} keys=buf"]
+                ops += [self._add(5, 50), self._add(5, 51), self._add(300, 52), self._contains(5), self._contains(6)]
+                ops += ([] if self.is_set else ["get 5", "get 300", "get 6"])
+                ops += ["remove 5", "remove 5", self._add(300, 53), self._add(0, 54)] + self._tail(3) + ["destroy"]
+                out.append(ops)
         return out
 
     def fault_enumeration(self):
